@@ -7,7 +7,7 @@ COMMON_ASSUMPTIONS = [
     "a green run means: held on the executions counted here, nothing more",
 ]
 
-HOOK_COMMITS = ['e1f8ec1']
+HOOK_COMMITS = ['e1f8ec1', '9c7fb30']
 
 ENGINES = [
     {'name': 'tvh', 'path': '/verif/harness', 'serves_properties': ['C%02d' % i for i in range(1, 21)],
@@ -149,5 +149,16 @@ PROPS = {
         'note': 'Send+Sync of Tera, Context, Value, Key, Kwargs, Error, Number is a compile-time assertion in the harness (a regression is a build failure attributed to this check); data races proper are the business of the TSan/Miri legs, the quick tier only compares results',
         'rule': "one evaluation = one render or one injected failure point; a cell = (render variant, call/byte failure site, failure kind, short/full writes), (variant, ok/err) for the channel differential and the thread count for concurrency",
         'must_observe': ['channel_pairs_compared', 'failure_points_injected', 'purity_checks', 'concurrent_renders_compared'],
+    },
+    'C09': {
+        'level': 'translation_validation',
+        'technique': 'translation validation of the fusion pass: structural alignment of the pre- and post-pass listings of every chunk (hooks) with jump-target checking + differential rendering with the pass switched off',
+        'claim': 'For every generated program every chunk (template bodies, blocks, components) is aligned instruction by instruction with its own pre-pass listing: only `LoadName(n) LoadAttr* [WriteTop]` may be merged, '
+                 '`__tera_context` never, all other instructions identical and in order, every jump (Jump, PopJumpIfFalse, JumpIfFalseOrPop, JumpIfTrueOrPop, Iterate) must land on the image of its old target and no old target may lie inside a merged group. '
+                 'The same programs are compiled a second time with the pass skipped and every template, block and component is rendered under contexts where each path element is present/missing/none/of another kind: texts equal, Err iff Err. '
+                 'Two generators: a path-heavy grammar placing variable paths next to every kind of jump, and the general program generator with path bias.',
+        'note': 'the pre-pass listing is recorded by the hook inside Chunk::optimize of the same compilation (two compilations differ legitimately in the order of keyword-argument loads); the alignment trusts the Debug form of instructions',
+        'rule': "one evaluation = one compilation or render; programs = accepted programs, disagreements_checked = differential renders; a cell = (jump kind, instruction kind at, after and before its target) for the structure and (generator family, ok/err) for the differential",
+        'must_observe': ['chunks_aligned', 'merged_groups', 'jumps_checked', 'differential_renders', 'render_end_events'],
     },
 }
